@@ -136,7 +136,7 @@ def is_zero_word(E, w):
 
 # ---- scenario: write, call out (possibly re-entered), read back ----------------------------------------------------
 
-def run_reentrancy(transient, readonly_call=False):
+def run_reentrancy(transient, readonly_call=False, second_write=False):
     def run(E):
         rt, rtref = setup(E)
         sysv = okv(E, call(E, 'load', [rtref]), 'load failed')
@@ -146,6 +146,11 @@ def run_reentrancy(transient, readonly_call=False):
         setter, getter = ('set_transient_storage', 'get_transient_storage') if transient else ('set_storage', 'get_storage')
         r = call(E, setter, [sref(), k, v])
         okv(E, r, 'set failed')
+        if second_write:
+            # a second write to the same slot before the call: the later value is the one that counts
+            v_first = v
+            v = mk_word(E, 'v_second')
+            okv(E, call(E, setter, [sref(), k, v]), 'set failed')
         env = E.ctx.env
         env.update(dict(k=k, v=v, k2=k2, cell=cell, sys0=sysv, transient=transient))
 
@@ -416,6 +421,10 @@ def build(tier):
     O.append(Obligation('evm.System: write, STATICCALL out, read back [storage]', run_reentrancy(False, True), props_reentrancy,
                         descr='a pending write is flushed before a read-only nested call too (a re-entrant read-only activation sees it); the own view is kept afterwards',
                         bounds='one load + one write + one read-only call + one read; arbitrary stored state; call outcome: ok / exit code / syscall error', max_paths=200000))
+    if tier != 'quick':
+        O.append(Obligation('evm.System: write twice, call out, read back [storage]', run_reentrancy(False, False, True), props_reentrancy,
+                            descr='as below with two successive writes to the slot before the call (the later value is flushed and read back)',
+                            bounds='one load + two writes to one slot + one call + one read', max_paths=400000, wall_s=1500))
     for tr in (False, True):
         O.append(Obligation('evm.System: write, call out, read back [%s]' % ('transient storage' if tr else 'storage'), run_reentrancy(tr), props_reentrancy,
                             descr='pending writes are flushed and visible at call time; after a successful call the view is what a re-entrant activation left; after a failed call or none the own view; read-only activations cannot flush writes',
